@@ -33,3 +33,28 @@ EXEMPT = {
     ('I4', 'Builtin:__Pyx_PyObject_Append:__Pyx_PyObject_Append(OO)->O:ret'):
         'legacy namespace entry for the internal name; not reachable from Python source except by spelling the internal helper name; the real list.append optimisation uses PyObject_Append_func_type (int return)',
 }
+
+_G1L = 'literal default value: a literal generates no code and owns nothing, so no disposal is needed; '
+_G1R = 'reference to a value owned by the enclosing loop construct (ResultRefNode / temp handed in by the transform), disposed by its owner; '
+EXEMPT.update({
+    ('G1', 'Nodes.CArgDeclNode.calculate_default_value_code:self.default:class-D'): _G1L + 'guarded by `self.default.is_literal`',
+    ('G1', 'Nodes.CArgDeclNode.calculate_default_value_code:self.default:class-F'): _G1L + 'guarded by `self.default.is_literal`',
+    ('G1', 'ExprNodes.DefaultLiteralArgNode.generate_evaluation_code:self.arg:class-D'): _G1L + 'DefaultLiteralArgNode wraps literals only',
+    ('G1', 'ExprNodes.DefaultLiteralArgNode.generate_evaluation_code:self.arg:class-F'): _G1L + 'DefaultLiteralArgNode wraps literals only',
+    ('G1', 'Nodes.DictIterationNextNode.generate_execution_code:self.dict_obj:class-D'): _G1R + 'dict_obj is the dict temp of the surrounding optimised loop',
+    ('G1', 'Nodes.DictIterationNextNode.generate_execution_code:self.dict_obj:class-F'): _G1R + 'dict_obj is the dict temp of the surrounding optimised loop',
+    ('G1', 'Nodes.SetIterationNextNode.generate_execution_code:self.set_obj:class-D'): _G1R + 'set_obj is the set temp of the surrounding optimised loop',
+    ('G1', 'Nodes.SetIterationNextNode.generate_execution_code:self.set_obj:class-F'): _G1R + 'set_obj is the set temp of the surrounding optimised loop',
+    ('G1', 'Nodes.ReturnStatNode.generate_execution_code:value:DF'):
+        'value is disposed with generate_post_assignment_code + free_temps under `if value:` after the branches that move it into the return variable; the early `return` is the error-already-reported path',
+    ('G1', 'ExprNodes.PyMethodCallNode.generate_evaluate_function:self.function:DF'):
+        'split protocol: when the function result stays in its temp, disposal is done by generate_dispose_function() under the same condition (result_in_temp() or nonlocally_immutable())',
+    ('G1', 'ExprNodes.BoolBinopResultNode.generate_bool_evaluation_code:self.arg:D'):
+        'disposal happens under the complementary conditions `uses_temp and (and_label and or_label)` / `not uses_temp or not (and_label and or_label)`: exactly once on every path',
+    ('G1', 'UtilNodes.LetNodeMixin.setup_temp_expr:self.temp_expression:DF'):
+        'split protocol: when the expression result is in a temp it is disposed in teardown_temp_expr() under the saved flag self._result_in_temp',
+    ('G1', 'FusedNode.FusedCFuncDefNode.generate_execution_code:self.defaults_tuple:DF'):
+        'defaults_tuple is evaluated and later disposed under the same `if self.py_func:` condition around the super() call',
+    ('G5', 'Nodes.FuncDefNode.generate_function_definitions:put_ensure_gil'):
+        'the function emits GIL acquire/release into separate C regions (body, error cleanup, return cleanup) under flags tracked in local state (gil_owned dict); not one syntactic bracket',
+})
